@@ -46,6 +46,11 @@ def rand_case(rng):
     p = rng.choice([0.0, 0.1, 0.4])
     s2 = "".join(ch if rng.random() > p else rng.choice("ATGC") for ch in seq)
     case = dict(sequence=seq, spec=d, evaluated=s2)
+    if rng.random() < 0.2:
+        # the specification object was used before, on another sequence (a batch of problems sharing one list)
+        case["used_before"] = hard.rand_seq(rng, n + rng.choice([0, 0, 3]))
+        if rng.random() < 0.5:
+            case["evaluated"] = seq     # the untouched sequence: e.g. 'no change' is met completely
     if d["kind"] in ("cai", "rca", "rare") and rng.random() < 0.4:
         other = rng.choice([k_ for k_ in ("cai", "rca") if k_ != d["kind"]] or ["rca"])
         first = dict(kind=other, location=d["location"], table_seed=d["table_seed"], boost=1)
@@ -91,9 +96,9 @@ def oracle_case(case, out):
         if case.get("table_first_used_by"):
             with hard.shared_tables():
                 bspec.build(case["table_first_used_by"])
-                spec, stub = bspec.init_spec(d, seq)
+                spec, stub = bspec.init_spec(d, seq, case.get("used_before"))
         else:
-            spec, stub = bspec.init_spec(d, seq)
+            spec, stub = bspec.init_spec(d, seq, case.get("used_before"))
     except Exception:
         return 0
     stub.sequence = s2
